@@ -1,6 +1,7 @@
 package vc
 
 import (
+	"crypto/sha256"
 	"fmt"
 	"go/types"
 	"strings"
@@ -115,11 +116,13 @@ func (r *sortReg) structSort(t types.Type) *structInfo {
 	} else if a, ok := t.(*types.Alias); ok {
 		name = a.Obj().Name()
 	} else {
-		name = fmt.Sprintf("struct#%d", len(r.structs))
+		h := sha256.Sum256([]byte(types.TypeString(st, nil)))
+		name = fmt.Sprintf("struct#%x", h[:5])
 	}
 	for _, si := range r.structs {
 		if si.sort == q(name) {
-			name = fmt.Sprintf("%s#%d", name, len(r.structs))
+			h := sha256.Sum256([]byte(types.TypeString(st, nil)))
+			name = fmt.Sprintf("%s#%x", name, h[:4])
 		}
 	}
 	si := &structInfo{sort: q(name), st: st, named: t}
